@@ -180,3 +180,46 @@ def Kmat {F : Type} (kfun : Nat → Pt → Pt → F) (k : Nat) (S : List Pt) : M
   fun i j => kfun k (S.get i) (S.get j)
 
 end Darsia.Kern
+
+namespace Darsia.Kern
+
+/-- the accumulation loop is the plain kernel sum (any commutative semiring, any kernel function) -/
+theorem kernelLoop_eq_plainSum {F : Type} [CommSemiring F] (k : Pt → Pt → F) (ws : List F) (ss : List Pt) (x : Pt)
+    (h : 0 < ws.length ∧ 0 < ss.length ∨ ws = [] ∨ ss = []) : kernelLoop k ws ss x = plainSum k ws ss x := by
+  have fold : ∀ (l : List (F × Pt)) (acc : F),
+      l.foldl (fun acc p => acc + p.1 * k x p.2) acc = acc + (l.map fun p => p.1 * k x p.2).foldr (· + ·) 0 := by
+    intro l
+    induction l with
+    | nil => intro acc; simp
+    | cons p l ih => intro acc; simp only [List.foldl_cons, List.map_cons, List.foldr_cons, ih]; ring
+  cases ws with
+  | nil => simp [kernelLoop, plainSum]
+  | cons w0 ws =>
+    cases ss with
+    | nil => simp [kernelLoop, plainSum]
+    | cons s0 ss => simp only [kernelLoop, plainSum, List.zip_cons_cons, List.map_cons, List.foldr_cons, fold]
+
+/-- … for every supported signal shape: each pixel of the result is the plain kernel sum at that pixel -/
+theorem combine_eq_plainSum {F : Type} [CommSemiring F] (k : Pt → Pt → F) (ws : List F) (ss : List Pt) (sig : Signal) :
+    sig.combine k ws ss = sig.pixels.map (plainSum k ws ss) := by
+  have h : ∀ x, kernelLoop k ws ss x = plainSum k ws ss x := by
+    intro x
+    apply kernelLoop_eq_plainSum
+    cases ws with
+    | nil => exact Or.inr (Or.inl rfl)
+    | cons w ws => cases ss with
+      | nil => exact Or.inr (Or.inr rfl)
+      | cons s ss => exact Or.inl ⟨by simp, by simp⟩
+  cases sig with
+  | pixel x => simp [Signal.combine, Signal.pixels, h]
+  | list xs => simp [Signal.combine, Signal.pixels, h]
+  | grid rows =>
+    simp only [Signal.combine, Signal.pixels, List.map_flatten]
+    congr 1
+    apply List.map_congr_left
+    intro r _
+    apply List.map_congr_left
+    intro x _
+    exact h x
+
+end Darsia.Kern
